@@ -134,7 +134,7 @@ class SocketTransportSink(ClientMessageSink):
       try:
         if deadline:
           timeout = deadline - time.time()
-          if timeout < 0:
+          if timeout <= 0:
             raise gevent.Timeout()
           gtimeout = gevent.Timeout.start_new(timeout)
         else:
